@@ -401,6 +401,19 @@ def e2e_configs(tier):
              compression="none", nodata=-3),                     # uncompressed level that is exactly one tile
         dict(base, H=40, W=33, axis="SYX", S=1, dtype="float32", chunks=(48, 1), blocksize=[(16, 32), 16], band_chunk=1),
         dict(base, H=16, W=3, axis="YXS", S=1, dtype="float64", chunks=(16, 32), blocksize=[(32, 16), 32, 16]),
+        # several writes per chunk with parts small enough that non-final chunks spill, several sub-streams (levels)
+        dict(base, H=50, W=70, compression="none", writes_per_chunk=2, min_write_sz=64, spill_sz=64),
+        dict(base, H=50, W=70, compression="none", writes_per_chunk=3, min_write_sz=1, spill_sz=1, scheduler="shuffle:2"),
+        dict(base, H=40, W=40, axis="SYX", S=2, dtype="float32", chunks=(16, 16), blocksize=[16], compression="none",
+             writes_per_chunk=2, min_write_sz=500, spill_sz=500, band_chunk=1, scheduler="threads:3"),
+        dict(base, H=15, W=17, dtype="float32", chunks=(20, 9), blocksize=[(32, 16), 32, 16], compression="none",
+             writes_per_chunk=2, min_write_sz=64, spill_sz=256),
+        # irregular source chunking whose largest chunk equals the tile size (chunksize == tile, no rechunk before be07dac)
+        dict(base, H=100, W=72, chunks=((32, 18, 32, 18), (32, 32, 8)), blocksize=[32, 16]),
+        dict(base, H=64, W=64, axis="SYX", S=2, dtype="uint8", chunks=((32, 16, 16), (16, 32, 16)), blocksize=[32], band_chunk=1),
+        dict(base, H=48, W=80, axis="YXS", S=3, dtype="uint8", chunks=((16, 32), (32, 16, 32)), blocksize=[(32, 32), 16],
+             scheduler="shuffle:7"),
+        dict(base, H=70, W=50, chunks=((10, 32, 28), (32, 5, 13)), blocksize=None),
         dict(base, H=33, W=47, blocksize=[(16, 32), 16], chunks=(10, 47), transform=[3.0, 4.0, 10.0, 4.0, -3.0, 50.0]),
         dict(base, H=70, W=50, axis="SYX", S=2, chunks=(32, 32), band_chunk=2, dtype="uint8", scheduler="shuffle:11",
              stats=True),
@@ -418,6 +431,9 @@ def e2e_configs(tier):
         c["chunks"] = (rng.choice([1, 7, 16, 20, 32, 48, H]), rng.choice([1, 9, 16, 32, 33, 64, W]))
         if c["chunks"][0] * c["chunks"][1] < 40 and H * W > 2000:
             c["chunks"] = (16, 32)
+        if rng.random() < 0.3:
+            # irregular chunking along one or both axes, often with the largest chunk equal to a likely tile size
+            c["chunks"] = tuple(irregular_chunks(rng, d) if rng.random() < 0.7 else ch for d, ch in zip((H, W), c["chunks"]))
         c["blocksize"] = rng.choice([None, [16], [32, 16], [(16, 32), 16], [48, 16], [(32, 16), 32, 16], [64], 32])
         c["compression"] = rng.choice(["deflate", "deflate", "zstd", "none", "lzw"])
         if rng.random() < 0.3 and c["compression"] != "none":    # tifffile rejects a predictor without compression
@@ -432,8 +448,8 @@ def e2e_configs(tier):
             # the other combinations run into the multi-part defects tracked under property C06 (F2/F3)
             c["min_write_sz"] = rng.choice([1, 64, 500])
             c["spill_sz"] = c["min_write_sz"] * rng.choice([1, 4, 40])
-        if rng.random() < 0.2:
-            c["writes_per_chunk"] = rng.choice([1, 2])
+        if rng.random() < (0.5 if "min_write_sz" in c else 0.1):
+            c["writes_per_chunk"] = rng.choice([2, 2, 3])
         if rng.random() < 0.2:
             c["bigtiff"] = False
         cfgs.append(c)
@@ -442,13 +458,25 @@ def e2e_configs(tier):
     return cfgs
 
 
+def irregular_chunks(rng, dim):
+    """explicit chunk sizes summing to dim, not a regular grid (when dim allows)"""
+    out, left = [], dim
+    while left > 0:
+        n = min(left, rng.choice([16, 32, 32, 48, 64, 5, 18, 1]))
+        out.append(n)
+        left -= n
+    if len(out) > 2:
+        rng.shuffle(out)
+    return tuple(out)
+
+
 def level0_tiles(c):
     """tiles per plane of the full-resolution level (decides whether dask repartitions the bag)"""
     from odc.geo.cog._shared import compute_cog_spec, norm_blocksize
 
     bs = c["blocksize"]
     if bs is None:
-        cy, cx = min(c["chunks"][0], c["H"]), min(c["chunks"][1], c["W"])
+        cy, cx = (max(ch) if isinstance(ch, (tuple, list)) else min(ch, d) for ch, d in zip(c["chunks"], (c["H"], c["W"])))
         bs = [(cy, cx), max(1, max(cy, cx) // 2)]
     if not isinstance(bs, list):
         bs = [bs]
@@ -606,8 +634,7 @@ def run_limited(cfg, work, seconds=90):
 def p_e2e(cfg):
     """the property's statement about the produced file, checked on the file itself"""
     cfg = dict(cfg)
-    for k in ("chunks",):
-        cfg[k] = tuple(cfg[k])
+    cfg["chunks"] = tuple(tuple(c) if isinstance(c, (list, tuple)) else c for c in cfg["chunks"])
     work = tempfile.mkdtemp(prefix="verif-c05-")
     try:
         rec = run_limited(cfg, work)
